@@ -18,6 +18,33 @@ theorem concatCounts_inj (t e s t' e' s' : UInt64) (d d' : Nat)
   exact ⟨UInt64.toNat_inj.mp key.1, UInt64.toNat_inj.mp key.2.1, UInt64.toNat_inj.mp key.2.2.1, key.2.2.2⟩
 
 
+theorem modP_aux (a a' : Nat) (ha : a < 2 ^ 256) (ha' : a' < 2 ^ 256) (h63 : a % 2 ^ 63 = 0) (h63' : a' % 2 ^ 63 = 0)
+    (h : a % starkPrime = a' % starkPrime) : a = a' := by
+  unfold starkPrime at h
+  have e := Nat.div_add_mod a (2 ^ 251 + 17 * 2 ^ 192 + 1)
+  have e' := Nat.div_add_mod a' (2 ^ 251 + 17 * 2 ^ 192 + 1)
+  have hr := Nat.mod_lt a (show 2 ^ 251 + 17 * 2 ^ 192 + 1 > 0 by decide)
+  generalize a / (2 ^ 251 + 17 * 2 ^ 192 + 1) = q at e
+  generalize a' / (2 ^ 251 + 17 * 2 ^ 192 + 1) = q' at e'
+  generalize a % (2 ^ 251 + 17 * 2 ^ 192 + 1) = r at *
+  generalize a' % (2 ^ 251 + 17 * 2 ^ 192 + 1) = r' at *
+  subst h
+  omega
+
+theorem concatCounts_bounds (t e s : UInt64) (d : Nat) :
+    concatCounts t e s d < 2 ^ 256 ∧ concatCounts t e s d % 2 ^ 63 = 0 := by
+  unfold concatCounts
+  have ht := t.toNat_lt; have he := e.toNat_lt; have hs := s.toNat_lt
+  split <;> omega
+
+theorem concatCounts_modP_inj (t e s t' e' s' : UInt64) (d d' : Nat)
+    (h : concatCounts t e s d % starkPrime = concatCounts t' e' s' d' % starkPrime) :
+    t = t' ∧ e = e' ∧ s = s' ∧ (d = 1 ↔ d' = 1) := by
+  have b := concatCounts_bounds t e s d
+  have b' := concatCounts_bounds t' e' s' d'
+  exact concatCounts_inj _ _ _ _ _ _ _ _ (modP_aux _ _ b.1 b'.1 b.2 b'.2 h)
+
+
 theorem daMode_inj (f n f' n' : UInt32) (h : daMode f n = daMode f' n') : f = f' ∧ n = n' := by
   unfold daMode at h
   have := f.toNat_lt; have := n.toNat_lt; have := f'.toNat_lt; have := n'.toNat_lt
@@ -691,7 +718,7 @@ def headerView0134 (h : Header) (sd : StateDiff) : Option HeaderView0134 :=
     match dg.wei, dg.fri, l2.wei, l2.fri with
     | some dw, some df, some lw, some lf =>
       some ⟨h.number, h.stateRoot, seq, h.timestamp, h.txCount, h.eventCount, sdLen64 sd, h.l1DAMode == 1,
-            h.l1GasPriceETH, strk, dw, df, lw, lf, bytesToNat h.version, h.parentHash⟩
+            h.l1GasPriceETH, strk, dw, df, lw, lf, bytesToNat h.version % starkPrime, h.parentHash⟩
     | _, _, _, _ => none
   | _, _, _, _ => none
 
@@ -717,7 +744,7 @@ deriving DecidableEq, Repr
 def headerView0132 (h : Header) (sd : StateDiff) : HeaderView0132 :=
   ⟨h.number, h.stateRoot, h.sequencer.getD (.felt 0), h.timestamp, h.txCount, h.eventCount, sdLen64 sd, h.l1DAMode == 1,
    h.l1GasPriceETH, h.l1GasPriceSTRK.getD (.felt 0), (h.l1DataGasPrice.bind (·.wei)).getD (.felt 0),
-   (h.l1DataGasPrice.bind (·.fri)).getD (.felt 0), bytesToNat h.version, h.parentHash⟩
+   (h.l1DataGasPrice.bind (·.fri)).getD (.felt 0), bytesToNat h.version % starkPrime, h.parentHash⟩
 
 theorem blob_eq {d d' : Nat} (h : d = 1 ↔ d' = 1) : (d == 1) = (d' == 1) := by
   rw [Bool.eq_iff_iff]; simp [h]
@@ -750,7 +777,9 @@ theorem post0134_inj (b b' : Block) (sd sd' : StateDiff) (x : Term)
   simp only [commonPrefix, stateDiffHash, Term.posN.injEq, Term.comm.injEq, List.cons_append, List.nil_append, List.cons.injEq,
     Term.felt.injEq, true_and] at h'
   obtain ⟨hn, hr, hsq, hts, hcc, hsd, htx, hev, hrc, ⟨he, hk2, hw, hf, hlw, hlf⟩, hv, hp⟩ := h'
-  have cc := concatCounts_inj _ _ _ _ _ _ _ _ hcc
+  have cc := concatCounts_modP_inj _ _ _ _ _ _ _ _ hcc
+  have hv : bytesToNat b'.header.version % starkPrime = bytesToNat b.header.version % starkPrime := by
+    simpa [setBytes] using hv
   refine ⟨?_, by simp, ?_, ?_, ?_, hsd.symm⟩
   · simp [u64_inj hn, hr, hsq, u64_inj hts, cc.1, cc.2.1, cc.2.2.1, blob_eq cc.2.2.2, he, hk2, hw, hf, hlw, hlf, hv, hp]
   · exact (map_inj_of_inj txLeaf0134 sigView txLeaf0134_inj _ _ htx).symm
@@ -771,7 +800,9 @@ theorem post0132_inj (b b' : Block) (sd sd' : StateDiff) (x : Term)
   simp only [commonPrefix, stateDiffHash, Term.posN.injEq, Term.comm.injEq, List.cons_append, List.nil_append, List.cons.injEq,
     Term.felt.injEq, true_and, and_true] at h'
   obtain ⟨hn, hr, hsq, hts, hcc, hsd, htx, hev, hrc, he, hk2, hw, hf, hv, hp⟩ := h'
-  have cc := concatCounts_inj _ _ _ _ _ _ _ _ hcc
+  have cc := concatCounts_modP_inj _ _ _ _ _ _ _ _ hcc
+  have hv : bytesToNat b'.header.version % starkPrime = bytesToNat b.header.version % starkPrime := by
+    simpa [setBytes] using hv
   refine ⟨?_, ?_, ?_, ?_, hsd.symm⟩
   · simp [headerView0132, u64_inj hn, hr, hsq, u64_inj hts, cc.1, cc.2.1, cc.2.2.1, blob_eq cc.2.2.2, he, hk2, hw, hf, hv, hp]
   · exact (map_inj_of_inj txLeaf0132 sigView0132 txLeaf0132_inj _ _ htx).symm
@@ -795,7 +826,8 @@ theorem post0132_ne_post0134 (b b' : Block) (sd sd' : StateDiff) (x : Term)
 /-! ### acceptance -/
 
 theorem tryFallbacks_ok (net : Net) (b : Block) (sd : StateDiff) :
-    ∀ (fbs : List Term), tryFallbacks net b sd false fbs = .ok () → ∃ ov, blockHash net b sd ov = some b.header.hash
+    ∀ (fbs : List Term), tryFallbacks net b sd false fbs = .ok () →
+      ∃ ov, ov ∈ (if b.header.sequencer.isNone then fbs.map some else [none]) ∧ blockHash net b sd ov = some b.header.hash
   | [], h => by simp [tryFallbacks] at h
   | fb :: rest, h => by
     unfold tryFallbacks at h
@@ -804,9 +836,15 @@ theorem tryFallbacks_ok (net : Net) (b : Block) (sd : StateDiff) :
     · simp at h
     · rename_i hh heq
       split at h
-      · rename_i he; exact ⟨_, by rw [heq, he]⟩
+      · rename_i he
+        refine ⟨_, ?_, by rw [heq, he]⟩
+        cases hs : b.header.sequencer <;> simp [hs]
       · simp at h
-        exact tryFallbacks_ok net b sd rest h
+        obtain ⟨ov, hm, hh'⟩ := tryFallbacks_ok net b sd rest h
+        refine ⟨ov, ?_, hh'⟩
+        cases hs : b.header.sequencer <;> simp [hs] at hm ⊢
+        · exact Or.inr hm
+        · exact hm
 
 structure Verified (net : Net) (B : Bundle) : Prop where
   suHash : B.block.header.hash = B.su.blockHash
@@ -815,7 +853,8 @@ structure Verified (net : Net) (B : Bundle) : Prop where
   lens : B.block.txs.length = B.block.receipts.length
   receiptHashes : (List.zip B.block.txs B.block.receipts).all (fun tr => tr.1.hash == some tr.2.txHash) = true
   txs : inUnverifiable net B.block.header.number = false → verifyTransactions net.chainId B.block.txs B.block.header.version = true
-  hash : inUnverifiable net B.block.header.number = false → ∃ ov, blockHash net B.block B.su.diff ov = some B.block.header.hash
+  hash : inUnverifiable net B.block.header.number = false →
+    ∃ ov, ov ∈ overridesOf net B.block ∧ blockHash net B.block B.su.diff ov = some B.block.header.hash
 
 theorem sanityCheck_ok (net : Net) (B : Bundle) (h : sanityCheck net B = .ok ()) : Verified net B := by
   unfold sanityCheck at h
@@ -1090,33 +1129,6 @@ theorem run_preserves {σ : Type} (sem : StateSem σ) (net : Net) (st0 : σ) :
 
 /-! ### the field prime, byte strings, version strings -/
 
-def starkPrime : Nat := 2 ^ 251 + 17 * 2 ^ 192 + 1
-
-theorem modP_aux (a a' : Nat) (ha : a < 2 ^ 256) (ha' : a' < 2 ^ 256) (h63 : a % 2 ^ 63 = 0) (h63' : a' % 2 ^ 63 = 0)
-    (h : a % starkPrime = a' % starkPrime) : a = a' := by
-  unfold starkPrime at h
-  have e := Nat.div_add_mod a (2 ^ 251 + 17 * 2 ^ 192 + 1)
-  have e' := Nat.div_add_mod a' (2 ^ 251 + 17 * 2 ^ 192 + 1)
-  have hr := Nat.mod_lt a (show 2 ^ 251 + 17 * 2 ^ 192 + 1 > 0 by decide)
-  generalize a / (2 ^ 251 + 17 * 2 ^ 192 + 1) = q at e
-  generalize a' / (2 ^ 251 + 17 * 2 ^ 192 + 1) = q' at e'
-  generalize a % (2 ^ 251 + 17 * 2 ^ 192 + 1) = r at *
-  generalize a' % (2 ^ 251 + 17 * 2 ^ 192 + 1) = r' at *
-  subst h
-  omega
-
-theorem concatCounts_bounds (t e s : UInt64) (d : Nat) :
-    concatCounts t e s d < 2 ^ 256 ∧ concatCounts t e s d % 2 ^ 63 = 0 := by
-  unfold concatCounts
-  have ht := t.toNat_lt; have he := e.toNat_lt; have hs := s.toNat_lt
-  split <;> omega
-
-theorem concatCounts_modP_inj (t e s t' e' s' : UInt64) (d d' : Nat)
-    (h : concatCounts t e s d % starkPrime = concatCounts t' e' s' d' % starkPrime) :
-    t = t' ∧ e = e' ∧ s = s' ∧ (d = 1 ↔ d' = 1) := by
-  have b := concatCounts_bounds t e s d
-  have b' := concatCounts_bounds t' e' s' d'
-  exact concatCounts_inj _ _ _ _ _ _ _ _ (modP_aux _ _ b.1 b'.1 b.2 b'.2 h)
 
 /-! ### byte strings (the protocol version is committed as `felt.SetBytes(string)`) -/
 
@@ -1337,5 +1349,169 @@ theorem post07_inj (b b' : Block) (ov ov' : Option Term) (x : Term)
   · rw [eventLeavesPedersen_eq, eventLeavesPedersen_eq] at hev
     have := map_inj_of_inj eventLeafPedersen id (fun a c hh => eventLeafPedersen_inj a c hh) _ _ hev
     simpa using this.symm
+
+
+/-! ### version strings modulo the prime -/
+
+theorem bytesToNat_lt_prime_of_short (a : Bytes) (h : a.length ≤ 31) : bytesToNat a < starkPrime := by
+  have r := bytesToNat_range a
+  have p : 256 ^ a.length ≤ 256 ^ 31 := Nat.pow_le_pow_right (by decide) h
+  unfold starkPrime
+  omega
+
+def wrapWitness : Bytes := [48,46,49,52,46,49,46,0,2,40,142,226,40,128,230,116,0,0,0,0,0,0,0,0,0,0,0,0,0,0,0,6,5,198,86,179,247,89,225,100]
+
+
+theorem post0134_version_only_modP (b : Block) (sd : StateDiff) (v' : Bytes)
+    (h : bytesToNat v' % starkPrime = bytesToNat b.header.version % starkPrime) :
+    post0134 { b with header := { b.header with version := v' } } sd = post0134 b sd := by
+  simp [post0134, commonPrefix, setBytes, h]
+
+/-! ### the Store write model -/
+
+
+theorem runSSteps_some_iff : ∀ (steps : List SStep) (b : WBatch),
+    (runSSteps steps b).isSome = true ↔ ∀ s ∈ steps, s.1 = true
+  | [], b => by simp [runSSteps]
+  | (ok, ops) :: rest, b => by
+    unfold runSSteps
+    by_cases h : ok = true
+    · simp [h, runSSteps_some_iff rest (b ++ ops)]
+    · simp [h]
+
+theorem runSSteps_eq : ∀ (steps : List SStep) (b : WBatch), (∀ s ∈ steps, s.1 = true) →
+    runSSteps steps b = some (b ++ (steps.map (·.2)).flatten)
+  | [], b, _ => by simp [runSSteps]
+  | (ok, ops) :: rest, b, h => by
+    have hok : ok = true := h (ok, ops) (by simp)
+    unfold runSSteps
+    simp only [hok, if_true]
+    rw [runSSteps_eq rest (b ++ ops) (fun s hs => h s (by simp [hs]))]
+    simp
+
+theorem dbStore_fail_no_effect (db : DB) (i : StoreInput) (io : Nat → Bool) (h : (dbStore db i io).2 = false) :
+    (dbStore db i io).1 = db := by
+  unfold dbStore at h ⊢
+  split
+  · rename_i heq; simp [heq] at h
+  · rfl
+
+theorem dbStore_ok_iff (db : DB) (i : StoreInput) (io : Nat → Bool) :
+    (dbStore db i io).2 = true ↔ (i.successionOK = true ∧ i.stateOK = true ∧ ∀ k, k < 10 → io k = false) := by
+  have key := runSSteps_some_iff (storeSteps i io) []
+  have : (dbStore db i io).2 = (runSSteps (storeSteps i io) []).isSome := by
+    unfold dbStore; split <;> simp [*]
+  rw [this, key]
+  simp only [storeSteps, List.mem_cons, List.mem_nil_iff, or_false, forall_eq_or_imp, forall_eq, Bool.and_eq_true,
+    Bool.not_eq_true']
+  constructor
+  · rintro ⟨⟨hs, h0⟩, ⟨hst, h1⟩, h2, h3, h4, h5, h6, h7, h8, h9⟩
+    refine ⟨hs, hst, ?_⟩
+    intro k hk
+    have : k = 0 ∨ k = 1 ∨ k = 2 ∨ k = 3 ∨ k = 4 ∨ k = 5 ∨ k = 6 ∨ k = 7 ∨ k = 8 ∨ k = 9 := by omega
+    rcases this with r | r | r | r | r | r | r | r | r | r <;> subst r <;> assumption
+  · rintro ⟨hs, hst, hio⟩
+    exact ⟨⟨hs, hio 0 (by omega)⟩, ⟨hst, hio 1 (by omega)⟩, hio 2 (by omega), hio 3 (by omega), hio 4 (by omega),
+      hio 5 (by omega), hio 6 (by omega), hio 7 (by omega), hio 8 (by omega), hio 9 (by omega)⟩
+
+theorem applyBatch_frame : ∀ (b : WBatch) (db : DB) (k : DKey), (∀ op ∈ b, op.1 ≠ k) → db.applyBatch b k = db k
+  | [], db, k, _ => rfl
+  | op :: rest, db, k, h => by
+    have h1 : op.1 ≠ k := h op (by simp)
+    show DB.applyBatch (fun k' => if k' = op.1 then op.2 else db k') rest k = db k
+    rw [applyBatch_frame rest _ k (fun o ho => h o (by simp [ho]))]
+    simp [Ne.symm h1]
+
+theorem applyBatch_append (db : DB) (a b : WBatch) : db.applyBatch (a ++ b) = (db.applyBatch a).applyBatch b := by
+  simp [DB.applyBatch, List.foldl_append]
+
+theorem applyBatch_last_write (db : DB) (b1 b2 : WBatch) (k : DKey) (v : Option Nat) (h : ∀ op ∈ b2, op.1 ≠ k) :
+    db.applyBatch (b1 ++ (k, v) :: b2) k = v := by
+  rw [applyBatch_append]
+  show DB.applyBatch (fun k' => if k' = k then v else (db.applyBatch b1) k') b2 k = v
+  rw [applyBatch_frame b2 _ k h]
+  simp
+
+/-- after a successful `Store` the chain height is the block's number, its header is indexed by
+number and its number by hash — and every key of another bucket family / another block keeps its value -/
+theorem dbStore_ok_head (db : DB) (i : StoreInput) (io : Nat → Bool) (h : (dbStore db i io).2 = true) :
+    (dbStore db i io).1 (.chainHeight, 0) = some i.number ∧
+    (dbStore db i io).1 (.headerByNumber, i.number) = some i.header := by
+  have hall := (runSSteps_some_iff (storeSteps i io) []).mp (by
+    have : (dbStore db i io).2 = (runSSteps (storeSteps i io) []).isSome := by
+      unfold dbStore; split <;> simp [*]
+    rw [← this]; exact h)
+  have heq := runSSteps_eq (storeSteps i io) [] hall
+  unfold dbStore
+  rw [heq]
+  simp only [storeSteps, List.map_cons, List.map_nil, List.flatten_cons, List.flatten_nil, List.nil_append, List.append_nil]
+  constructor
+  · have := applyBatch_last_write db
+      (List.map (fun w => ((Bucket.state, w.1), w.2)) i.stateWrites ++
+        ([((Bucket.headerByNumber, i.number), some i.header), ((Bucket.numberByHash, i.hashId), some i.number)] ++
+          ([((Bucket.txsAndReceipts, i.number), some i.body)] ++ ([((Bucket.stateUpdate, i.number), some i.su)] ++
+            ([((Bucket.commitments, i.number), some i.commitments)] ++
+              (List.map (fun m => ((Bucket.l1HandlerMsgHashes, m.1), some m.2)) i.l1msgs ++
+                List.map (fun m => ((Bucket.casmMetadata, m.1), some m.2)) i.casm))))))
+      [((Bucket.eventFilter, 0), some i.bloom)] (Bucket.chainHeight, 0) (some i.number) (by simp)
+    simpa [List.append_assoc] using this
+  · have := applyBatch_last_write db (List.map (fun w => ((Bucket.state, w.1), w.2)) i.stateWrites)
+      (((Bucket.numberByHash, i.hashId), some i.number) ::
+          ([((Bucket.txsAndReceipts, i.number), some i.body)] ++ ([((Bucket.stateUpdate, i.number), some i.su)] ++
+            ([((Bucket.commitments, i.number), some i.commitments)] ++
+              (List.map (fun m => ((Bucket.l1HandlerMsgHashes, m.1), some m.2)) i.l1msgs ++
+                (List.map (fun m => ((Bucket.casmMetadata, m.1), some m.2)) i.casm ++
+                  [((Bucket.chainHeight, 0), some i.number), ((Bucket.eventFilter, 0), some i.bloom)]))))))
+      (Bucket.headerByNumber, i.number) (some i.header) (by
+        intro op hop
+        simp only [List.mem_cons, List.mem_append, List.mem_map, List.mem_nil_iff, or_false] at hop
+        rcases hop with r | r | r | r | ⟨m, _, r⟩ | ⟨m, _, r⟩ | r | r <;> (subst r; simp))
+    simpa [List.append_assoc] using this
+
+/-! ### histories with reverts -/
+
+
+def ChainOK' {σ : Type} (sem : StateSem σ) (net : Net) (st0 : σ) (c : Chain σ) : Prop :=
+  ChainOK sem net st0 c.head c.st c.stored
+
+/-- every snapshot of the node (the current chain and every chain a revert can return to) is well formed -/
+def NodeOK {σ : Type} (sem : StateSem σ) (net : Net) (st0 : σ) (n : NodeSt σ) : Prop :=
+  ChainOK' sem net st0 n.cur ∧ ∀ p ∈ n.prev, ChainOK' sem net st0 p
+
+theorem accept_preserves {σ : Type} (sem : StateSem σ) (net : Net) (st0 : σ) (c c' : Chain σ) (B : Bundle)
+    (h : ChainOK' sem net st0 c) (hacc : accept sem net c B = .ok c') : ChainOK' sem net st0 c' := by
+  have := offer_preserves sem net st0 c B h
+  unfold offer at this
+  rw [hacc] at this
+  exact this
+
+theorem stepOp_preserves {σ : Type} (sem : StateSem σ) (net : Net) (st0 : σ) (n : NodeSt σ) (o : Op)
+    (h : NodeOK sem net st0 n) : NodeOK sem net st0 (stepOp sem net n o) := by
+  cases o with
+  | offer B =>
+    simp only [stepOp]
+    cases hacc : accept sem net n.cur B with
+    | error e => simpa using h
+    | ok c' =>
+      simp only
+      refine ⟨accept_preserves sem net st0 n.cur c' B h.1 hacc, ?_⟩
+      intro p hp
+      rcases List.mem_cons.mp hp with rfl | hp
+      · exact h.1
+      · exact h.2 p hp
+  | revert =>
+    simp only [stepOp]
+    cases hp : n.prev with
+    | nil => simpa [hp] using h
+    | cons p ps =>
+      simp only
+      refine ⟨h.2 p (by simp [hp]), ?_⟩
+      intro q hq
+      exact h.2 q (by simp [hp, hq])
+
+theorem runOps_preserves {σ : Type} (sem : StateSem σ) (net : Net) (st0 : σ) :
+    ∀ (ops : List Op) (n : NodeSt σ), NodeOK sem net st0 n → NodeOK sem net st0 (runOps sem net n ops)
+  | [], _, h => h
+  | o :: rest, n, h => runOps_preserves sem net st0 rest _ (stepOp_preserves sem net st0 n o h)
 
 end Juno.C02
